@@ -165,8 +165,7 @@ def run(pid, tier):
         raise ToolError('no events to judge')
     fp, fs = os.path.join(d, 'probs.ndjson'), os.path.join(d, 'events.ndjson')
     common.write_ndjson(fp, probs)
-    common.write_ndjson(fs, judged)
-    res = common.tlc('TraceSolutionCtx', env={'PROBS': fp, 'STEPS': fs}, workers=1, name=pid + '-trace', timeout=7000, xmx='8g')
+    res = common.tlc_records('TraceSolutionCtx', judged, 'STEPS', fs, env={'PROBS': fp}, workers=1, name=pid + '-trace', timeout=7000, xmx='8g')
     if res.distinct != len(judged):
         raise ToolError('trace spec consumed %d of %d events (see work/tlc-%s-trace.log)' % (res.distinct, len(judged), pid))
 
